@@ -443,6 +443,32 @@ def round3():
     return ms
 
 
+def round5():
+    """rules added after the fifth (held-out) seeding round"""
+    from mutants import R, RF, PF, EQ, RS
+    SC = "            grad_nontensor_params = [None for _ in range(param_sep.nnontensors())]\n            grad_params = param_sep.reconstruct_params(grad_tensor_params, grad_nontensor_params)"
+    ms = [
+        # AC15: hand-written scatter of the gradients
+        R("r5-scatter-by-sep-idxs-ok", "C04", RF, SC, "            grad_params = [None] * len(allparams)\n            for i, grad in zip(param_sep.tensor_idxs, grad_tensor_params):\n                grad_params[i] = grad", expect="silent"),
+        R("r5-scatter-same-predicate-ok", "C04", RF, SC, "            grad_params = [None] * len(allparams)\n            tensor_idxs = [i for i, p in enumerate(allparams) if isinstance(p, torch.Tensor) and p.requires_grad]\n"
+          "            for i, grad in zip(tensor_idxs, grad_tensor_params):\n                grad_params[i] = grad", expect="silent",
+          note="allparams holds the saved (requires-grad) tensors at their positions: same classification as the separator"),
+        R("r5-scatter-isinstance-only", "C04", RF, SC, "            grad_params = [None] * len(allparams)\n            tensor_idxs = [i for i, p in enumerate(allparams) if isinstance(p, torch.Tensor)]\n"
+          "            for i, grad in zip(tensor_idxs, grad_tensor_params):\n                grad_params[i] = grad", "AC15"),
+        R("r5-scatter-tensors-first", "C04", RF, SC, "            grad_params = list(grad_tensor_params) + [None] * param_sep.nnontensors()", "AC15"),
+        # C03-A: roles of the arguments of the termination test
+        R("r5-check-args-named-ok", "C03", EQ, "        to_stop = stop_cond.check(xnew, fnew - xnew, xnew - xn)", "        dev = fnew - xnew\n        step = xnew - xn\n        to_stop = stop_cond.check(xnew, dev, step)", expect="silent"),
+        R("r5-check-args-swapped", "C03", EQ, "        to_stop = stop_cond.check(xnew, fnew - xnew, xnew - xn)", "        dev = fnew - xnew\n        step = xnew - xn\n        to_stop = stop_cond.check(xnew, step, dev)", "C03-A"),
+        R("r5-check-args-swapped-root", "C03", RS, "        to_stop = stop_cond.check(xnew, ynew, dx)", "        to_stop = stop_cond.check(xnew, dx, ynew)", "C03-A"),
+        # class tokens: table-driven dispatch
+        R("r5-dispatch-table-ok", "C09", PF, "        if isinstance(obj, EditableModule):\n            return EditableModulePureFunction(obj, fcn)\n        elif isinstance(obj, torch.nn.Module):\n            return TorchNNPureFunction(obj, fcn)\n        else:\n            raise RuntimeError(errmsg)",
+          "        for objtype, wrapper in ((EditableModule, EditableModulePureFunction), (torch.nn.Module, TorchNNPureFunction)):\n            if isinstance(obj, objtype):\n                return wrapper(obj, fcn)\n        raise RuntimeError(errmsg)", expect="silent"),
+        R("r5-dispatch-table-reversed", "C09", PF, "        if isinstance(obj, EditableModule):\n            return EditableModulePureFunction(obj, fcn)\n        elif isinstance(obj, torch.nn.Module):\n            return TorchNNPureFunction(obj, fcn)\n        else:\n            raise RuntimeError(errmsg)",
+          "        for objtype, wrapper in ((torch.nn.Module, TorchNNPureFunction), (EditableModule, EditableModulePureFunction)):\n            if isinstance(obj, objtype):\n                return wrapper(obj, fcn)\n        raise RuntimeError(errmsg)", "C09-D"),
+    ]
+    return ms
+
+
 def seeded():
     """the independently seeded changes kept under /verif/seeded that the property's own check detects"""
     import json
@@ -466,5 +492,5 @@ def seeded():
 
 def all_mutants():
     drop = {"hs-module-memo-used", "c01-abe-no-unswap", "c07-rk4-other-order4", "c07-rk45-A", "c07-erk-two-steps-per-interval", "c07-packer-offset"}
-    ms = [m for m in c05() + c06() + c07() + c12() + c14() + c15() + extras() + generic_rules() + round3() + seeded() if m["id"] not in drop]
+    ms = [m for m in c05() + c06() + c07() + c12() + c14() + c15() + extras() + generic_rules() + round3() + round5() + seeded() if m["id"] not in drop]
     return ms
